@@ -90,6 +90,37 @@ PROPS = {
               "Non-trivial: >= 2 Blocks with >= 2 worker threads alive, or an early end with a live worker; distinct = hash(recipe, settings, ops, decision path)."),
         assumptions=BASE_ASSUME + ["thread schedules are sampled", "plain data races are only visible to the TSan-native target under OS scheduling"],
     ),
+    "C09": dict(
+        engine="fuzz+py", level="exploration",
+        technique="structured fuzzing (libFuzzer, structure-aware case decoder) with a counting lzma_allocator: by-construction .xz/.lzma/.lz files whose headers declare dictionary sizes 4 KiB..4 GiB-1 over tiny payloads x decoder kind x limit around the need the decoder itself reports x restart policy x slicing; threaded decoder x memlimit_threading/memlimit_stop x 1-8 threads; *_memusage() estimates against the measured peak of the really run coder; Hypothesis suite running xz under an LD_PRELOAD heap-accounting shim",
+        level_text="Generated-input search: tens of thousands of (file, decoder, limit, policy, slicing) and (options, entry point) cases per run, each decided by exact comparisons (peak live bytes vs limit + fixed allowance, needs equal across runs, result equal to the unlimited run, estimate >= peak). Sampled, not exhaustive: declared sizes above 80 MiB are really allocated only in ~1.5 % of the limit cases (ASan cost), otherwise only the refusal path is exercised.",
+        level_note="Trusted: va::Alloc (counts every byte liblzma obtains), ref/crc.h for the patched Block Header CRC32, the shared drv.h loop. The fixed allowance A = 64 KiB (+2 KiB per thread) is not proportional to anything the input controls; measured maximum slack on the unchanged tree: 2.1 KiB (single-threaded decoders), 2.4 KiB (threaded, memlimit_stop), 9 KiB (index decoders). A threaded run above a limit is repeated three times: reproduced >= 2/3 => deterministic signature, otherwise the recorded scheduling race C09:mt-threading-limit-cache-race. py: B = 1 MiB fixed, measured slack <= 256 KiB.",
+        targets=[dict(name="t_c09", quick_runs=48000, quick_workers=8, thorough_runs=1500000, max_len=256, min_nontrivial_quick=8000, min_nontrivial_thorough=300000)],
+        suites=[dict(module="c09_cli", min_nontrivial_quick=60, min_nontrivial_thorough=600)],
+        shims=["memcount"],
+        rule=("limit: case = file (xz: 1-3 Streams x 0-10 Blocks x chain of 1-4 filters x declared LZMA2 dictionary byte 0..40 x sizes in header or not; .lzma: any 32-bit dictionary field; .lz: 1-3 members, 4 KiB..512 MiB) x decoder {stream, auto, alone, lzip} x flags x limit in {1, 0, need/2, need-1, need, need+1, 2*need, max} around one of the needs x policy {stop, raise to need, need+1, 2*need, max} x slicing. "
+              "Oracle: discovery run (limit 1, raised to exactly each reported need) == unlimited run; at every LZMA_MEMLIMIT_ERROR: peak <= limit + A, memlimit_get == limit, memusage == the need the discovery run saw > limit, memlimit_set(need-1), set(need/2) refused and nothing changes, raise accepted; a limit below some need never finishes without the error; result after restarts == unlimited run, output before a stop is a prefix; lowering the limit below the usage while decoding is refused. "
+              "mt: the same through lzma_stream_decoder_mt (memlimit_stop) plus peak <= memlimit_threading + A whenever the largest single-Block need (learnt through the single-threaded decoder) fits. index: lzma_index_decoder / lzma_index_buffer_decode (*memlimit in/out) / lzma_file_info_decoder with the same limit protocol, lzma_index_memusage >= lzma_index_memused >= live bytes of the decoded index. "
+              "est: lzma_raw/easy_encoder_memusage, lzma_stream_encoder_mt_memusage, lzma_raw/easy_decoder_memusage >= peak live bytes of the initialised and run coder; UINT64_MAX => initialisation fails (13 kinds of invalid options). "
+              "Non-trivial: limit within [need/2, 2*need] or a restart happened (limit/index), >= 2 Blocks with a finite threading limit or a stop hit (mt), every estimate case; distinct = hash(file, decoder, limit, policy, slicing). "
+              "py: scenario = mode {compress, decompress, test} x -T {1,2,4,0} x preset / --lzma2=preset=,dict= x {--memlimit-compress, --memlimit-decompress, --memlimit-mt-decompress, -M, --memory} x limit around the need xz announces x --no-adjust; exit 0 => peak heap <= limit + 1 MiB and output round-trips, --no-adjust never changes the dictionary byte; exit 1 => limit really below the need and a memory-limit message; no other exit status."),
+        assumptions=BASE_ASSUME + ["requests above the 2 GiB allocator cap are refused and counted as environment (declared dictionaries >= 2 GiB exercise only the refusal/limit path)",
+            "the 576 bytes of 2*LZ_DICT_REPEAT_MAX (and any error below LZMA_MEMUSAGE_BASE = 32 KiB) in a decoder estimate are not observable through the public estimate functions",
+            "thread stacks and kernel mappings are not heap and are not counted by va::Alloc or the shim",
+            "the scheduling race C09:mt-threading-limit-cache-race can only be observed, not provoked, by native threads"],
+    ),
+    "C10": dict(
+        engine="fuzz", level="fault_enumeration",
+        technique="systematic allocation-fault injection (libFuzzer case decoder picks a scenario = short program over the public API; the target enumerates every allocation index) with an instrumented lzma_allocator (live-block table, fail k-th / fail from k / masks) under ASan+UBSan, differential against the fault-free transcript of the same scenario",
+        level_text="Per scenario exhaustive: the fault-free run counts K allocations, then for every k in 1..K both 'only the k-th fails' and 'the k-th and all later fail' are executed (K <= 400; observed K <= 200, mean 14), plus two case-chosen masks; scenarios themselves are sampled (six families, ~90000 distinct (scenario,k,mode) triples per 5000 cases).",
+        level_note="Trusted: va::Alloc (thread-safe live table: double free, unknown pointer, leak), drv.h, the per-API table of what a memory error looks like (LZMA_MEM_ERROR / NULL / non-NULL message). Reports are matched to delivered failures by count, not order, because a failure that hit a worker thread may surface at a later lzma_code.",
+        targets=[dict(name="t_c10", quick_runs=4000, quick_workers=8, thorough_runs=60000, max_len=200, min_nontrivial_quick=1200, min_nontrivial_thorough=40000)],
+        rule=("scenario families: coder (every lzma_*_encoder/_decoder init + coding loop incl. stream_encoder_mt/stream_decoder_mt with 2 threads, microlzma, index encoder/decoder, file-info decoder; after a failure: lzma_end or not, then re-initialise and compare), reuse (2-4 coders on one lzma_stream without lzma_end, init only / half / full coding), buffer (9 single-call *_buffer_* functions incl. header-decoded chains), index (init/append/stream_flags/padding/dup/cat/encoder->decoder on one handle/cat), filters (lzma_filters_copy, lzma_str_to_filters/from/list, lzma_properties_decode, lzma_filter_flags_decode, lzma_block_header_decode), update (lzma_filters_update after FULL_FLUSH / FULL_BARRIER / SYNC_FLUSH in stream, stream_mt, raw encoders; optionally carry on with the old chain after a refused update). "
+              "Oracle: reported memory errors <= delivered failures; caller-owned chains byte-identical, indexes identical through all getters + iteration, destination arrays untouched, positions not advanced; failed init leaves exactly the foreign live bytes; handle ended or re-initialised gives the fault-free result; no report => result equals the fault-free transcript; no double/unknown free; balanced() at the end; stream round-trips after a refused update. "
+              "Non-trivial: scenario with K >= 1; distinct = (scenario hash, k, mode) of runs in which a failure was delivered."),
+        assumptions=BASE_ASSUME + ["which later lzma_code of a threaded coder reports a worker's failure is not asserted", "pthread/mutex creation failures are not injected (only allocator failures)", "scenarios use small inputs (<= 13 KiB) and 4 KiB dictionaries so that K stays small"],
+        exhaustive_note="exhaustive per scenario: every allocation index k = 1..K of the fault-free run, in both modes 'fail only k' and 'fail k and all later' (K <= 400; no scenario exceeded the cap)",
+    ),
     "C11": dict(
         engine="fuzz", level="exploration",
         technique="model-based stateful fuzzing (libFuzzer): histories of legal and illegal lzma_code() calls on every public coder, judged call by call against a reference state machine written from api/lzma/base.h; guard-byte / exact-heap-block buffer instrumentation; end-to-end round trip / one-shot differential when a history reaches the end of the stream",
